@@ -457,8 +457,8 @@ func oneElementCmpCells(t *testing.T, prop string) {
 	for _, op := range cmpOps {
 		for _, mode := range []string{"safe", "safe-same", "unsafe", "reuse", "reuse-same"} {
 			op, mode := op, mode
-			cell(t, prop, "EW", "one-element/"+op+"/"+mode, nCases(12, 120), func(rt *rapid.T) Case {
-				d := rapid.SampledFrom([]DT{dtInt32, dtF64, dtUint8, dtInt64, dtF32}).Draw(rt, "dt")
+			cell(t, prop, "EW", "one-element/"+op+"/"+mode, nCases(30, 400), func(rt *rapid.T) Case {
+				d := rapid.SampledFrom(ordNumDTs).Draw(rt, "dt") // (every type has its own one-element branch)
 				form := rapid.SampledFrom([]string{"TT", "TS", "ST"}).Draw(rt, "form")
 				c := genCmpMode(rt, prop, op, d, form, rapid.SampledFrom([]string{"pkg", "method"}).Draw(rt, "via"), mode)
 				shape := cloneInts(rapid.SampledFrom([][]int{{1}, {1, 1}, {1, 1, 1}, {}}).Draw(rt, "shape"))
